@@ -158,6 +158,7 @@ unsafe impl Trace for Node {
     fn trace(&self, ctx: &mut Context<'_>) {
         let w = w();
         w.traces += 1;
+        event(K_TRACE as u32, self.id as u64, 0);
         if !tracing_now() {
             w.bad_phase += 1;
         }
@@ -180,6 +181,7 @@ impl Finalize for Node {
             w.fin_after_drop += 1;
         }
         w.fins[id] = w.fins[id].wrapping_add(1);
+        event(K_FINALIZE as u32, id as u64, 0);
         if model_reachable(id) {
             w.fin_on_live += 1;
         }
@@ -256,6 +258,7 @@ impl Drop for Node {
             w.bad_phase += 1;
         }
         w.drops[id] = w.drops[id].wrapping_add(1);
+        event(K_DROP as u32, id as u64, 0);
         if self.canary != CANARY + id as u32 {
             w.saw_dropped += 1;
         }
@@ -393,6 +396,13 @@ pub fn set_slot(i: usize, s: usize, j: usize) {
     let old = core::mem::replace(&mut owner.slots()[s], Some(c));
     w.edge[i][s] = j as u8;
     drop(old);
+}
+
+/// Clears slot `s` of node `i`. At top level a program can only do this to objects it can reach.
+pub fn clear_slot_top(i: usize, s: usize) {
+    if model_reachable(i) {
+        clear_slot(i, s);
+    }
 }
 
 pub fn clear_slot(i: usize, s: usize) {
